@@ -23,6 +23,10 @@ import (
 // Schema is a GraphQL schema.
 type Schema struct {
 	Object
+
+	// implied is true for a schema that was not declared with a schema
+	// block but made from the Query, Mutation and Subscription types.
+	implied bool
 }
 
 // Rank of the type.
